@@ -103,6 +103,7 @@ pub fn explore<S: Space>(name: &str, bound: &str, space: S, sink: &Arc<Sink>, th
         return explore_stateright(name, bound, space, sink, threads, dfs);
     }
     let threads = threads.max(1);
+    let space = Arc::new(space);
     let mut visited: std::collections::HashSet<S::State> = std::collections::HashSet::new();
     let mut frontier: Vec<S::State> = Vec::new();
     for s in space.init() {
@@ -148,7 +149,41 @@ pub fn explore<S: Space>(name: &str, bound: &str, space: S, sink: &Arc<Sink>, th
         }
         frontier = next;
     }
+    // Thorough tiers: count the same space with the stateright checker (no invariant, pure
+    // reachability) and require the same number of unique states.
+    if std::env::var_os("BWMC_CROSSCHECK").is_some() && states <= 300_000 {
+        let counter = CountOnly { space: Arc::clone(&space) };
+        let checker = counter.checker().threads(threads).spawn_bfs().join();
+        let other = checker.unique_state_count() as u64;
+        if other != states {
+            sink.machinery(format!("engine cross-check failed for phase `{name}`: own BFS visited {states} states, stateright {other}"));
+        } else {
+            eprintln!("[cross-check] {name}: {states} states under both engines");
+        }
+    }
     Phase { name: name.to_string(), states, transitions, max_depth: depth, exhaustive: true, bound: bound.to_string() }
+}
+
+/// The bare transition system of a space (for counting under stateright).
+struct CountOnly<S: Space> {
+    space: Arc<S>,
+}
+
+impl<S: Space> Model for CountOnly<S> {
+    type State = S::State;
+    type Action = usize;
+    fn init_states(&self) -> Vec<Self::State> {
+        self.space.init()
+    }
+    fn actions(&self, state: &Self::State, actions: &mut Vec<Self::Action>) {
+        actions.extend(0..self.space.succ(state).len());
+    }
+    fn next_state(&self, last_state: &Self::State, action: Self::Action) -> Option<Self::State> {
+        self.space.succ(last_state).into_iter().nth(action)
+    }
+    fn properties(&self) -> Vec<Property<Self>> {
+        vec![Property::always("count", |_: &Self, _| true)]
+    }
 }
 
 /// The same exploration with the stateright checker.
